@@ -258,6 +258,10 @@ def lean_prepare(mod, ctx) -> LeanStatus:
             else:
                 rc2, _ = _run(['lake', 'build', drv], cwd=LEAN)
                 st.driver_ok = rc2 == 0
+            if st.driver_ok:
+                copy = _private_driver_copy(drv)
+                if copy and getattr(ctx, 'driver', None) is not None and ctx.driver.name == drv:
+                    ctx.driver.path = copy
         # forbidden tokens anywhere in the Lean sources (comments and strings stripped)
         closure = lean_closure(mod)
         for path in closure:
@@ -323,12 +327,38 @@ def parse_axioms(out, thms):
     return {t: res.get(t) for t in thms}
 
 
+_PRIVATE_DRIVERS = {}     # driver name -> path of this process's private copy of the binary
+
+
+def _private_driver_copy(name):
+    """Copy the freshly built driver binary to a private temporary file (called under the build lock)."""
+    import atexit
+    import shutil
+    import tempfile
+    src = os.path.join(LEAN, '.lake', 'build', 'bin', name)
+    if not os.path.exists(src):
+        return None
+    d = tempfile.mkdtemp(prefix='verif-drv-')
+    dst = os.path.join(d, name)
+    shutil.copy2(src, dst)
+    owner = os.getpid()
+
+    def _cleanup():
+        if os.getpid() == owner:          # forked workers must not remove the parent's copy
+            shutil.rmtree(d, ignore_errors=True)
+    atexit.register(_cleanup)
+    _PRIVATE_DRIVERS[name] = dst
+    return dst
+
+
 class Driver:
     """The compiled Lean model behind the line protocol."""
 
     def __init__(self, name):
         self.name = name
-        self.path = os.path.join(LEAN, '.lake', 'build', 'bin', name)
+        # a private copy taken under the build lock (lean_prepare), when there is one: the shared
+        # .lake/build/bin/<name> may be rebuilt by a concurrent check of another tree while this run lasts
+        self.path = _PRIVATE_DRIVERS.get(name) or os.path.join(LEAN, '.lake', 'build', 'bin', name)
         self.lines = 0
 
     def available(self):
